@@ -67,6 +67,30 @@ def plumb(ctx, fields: Iterable[str], skip=()):
             p = fl.resolves_to_param(v)
             ctx.check(p == f, fi, f"keyword `{f}` reaches UserArguments.{f} unchanged", line=v.lineno, role=f"plumb:{f}",
                       expected=f"{f}=<parameter {f}>", found=unparse(v))
+    # one front end that delegates to the other (a short cut for a one-series list, say) forwards every hyper-parameter under its name:
+    # what is left out silently takes the callee's default
+    fes = [ana.func(fe) for fe in FRONT_ENDS]
+    saved_ev, ctx.evidence = ctx.evidence, True
+    try:
+        for fi in fes:
+            for other in fes:
+                for cs in calls_to(ana, fi, other.qualname):
+                    try:
+                        ba = bind_args(other, cs.node)
+                    except AnalysisError:
+                        ctx.fail(fi, f"`{fi.name}` delegates to `{other.name}` with arguments that cannot be bound statically", line=cs.node.lineno,
+                                 role=f"plumb-delegate:{fi.name}")
+                        continue
+                    fl_d = Flow(ana, fi)
+                    for f in fields:
+                        if f not in other.own_params:
+                            continue
+                        v = ba.get(f)
+                        ok = v is not None and fl_d.resolves_to_param(v) == f
+                        ctx.check(ok, fi, f"`{fi.name}` hands `{f}` on to `{other.name}` unchanged", line=cs.node.lineno, role=f"plumb-delegate:{fi.name}:{f}",
+                                  expected=f"{f}={f}", found=unparse(v) if v is not None else f"not passed: {other.name} uses its default")
+    finally:
+        ctx.evidence = saved_ev
     # nobody overwrites a field outside the class
     stores = []
     for fi in ana.prog.functions.values():
